@@ -352,6 +352,12 @@ class Definition(Item):
             if not all(v.is_var() for v in args):
                 raise ItemException("Definition %s: arguments on lhs must be variables" % self.name)
 
+            # Schematic variables are extra variables as well
+            if self.prop.get_svars():
+                raise ItemException(
+                    "Definition %s: schematic variables in definition: %s" % (
+                        self.name, ", ".join(str(v) for v in self.prop.get_svars())))
+
             # The constant being defined cannot appear on the rhs at an
             # overlapping type (the definition would be recursive)
             def overlap(T1, T2):
